@@ -15,6 +15,7 @@ def get_frame():
 
 
 def steps(token, key, frame, bad_token, bad_key):
+    RT = sessim.measure_params()[0]
     return {
         "send": ("send", frame, "ok", "ok"),
         "send_silent": ("send", frame, "ok", "silent"),
@@ -33,10 +34,10 @@ def steps(token, key, frame, bad_token, bad_key):
         "auth_silent": ("auth", token, key, "silent", "ok"),
         # cancellation by the caller while the call waits in a read (times chosen inside read waits in every
         # situation the history can be in; the post-authentication sleep is not a modelled cancellation point)
-        "send_cancel_1": ("sendc", frame, 1500, "ok", "silent"),
-        "send_cancel_2": ("sendc", frame, 3500, "ok", "silent"),
+        "send_cancel_1": ("sendc", frame, RT * 3 // 4, "ok", "silent"),
+        "send_cancel_2": ("sendc", frame, RT * 7 // 4, "ok", "silent"),
         "send_cancel_hs": ("sendc", frame, 50, "silent", "ok"),
-        "auth_cancel": ("authc", token, key, 2500, "silent", "ok"),
+        "auth_cancel": ("authc", token, key, RT * 5 // 4, "silent", "ok"),
         "clock_13h": ("adv", 13 * 3600 * 1000),
         "clock_12h1s": ("adv", 12 * 3600 * 1000 + 1000),
         "clock_25h": ("adv", 25 * 3600 * 1000),
